@@ -724,7 +724,7 @@ from pyvc.bounded import bounded
          prop_clauses={'C05': ['one_watch_per_served_pair', 'none_for_anything_else']},
          clauses=['one_watch_per_served_pair', 'none_for_anything_else', 'keys_match_served_pairs', 'stopped_before_deletion',
                   'peering_streams_match', 'paused_iff_mandatory_peering_is_absent', 'peering_processor_bound_to_its_own_stream',
-                  'processor_told_its_own_resource'],
+                  'processor_told_its_own_resource', 'redundant_streams_stopped_before_new_ones_start'],
          universe='resources {A namespaced, B cluster-scoped | A, C both namespaced} x watched subsets (4) x namespaces: '
                   'cluster-wide {None} | subsets of {ns1,ns2,ns3} (8) x peering {standalone, optional absent, optional present, '
                   'mandatory present, mandatory absent, mandatory appearing before the last call, optional present with a '
@@ -748,7 +748,8 @@ def O2(b):
     stream, CALLED after adjust_tasks has returned (as the stream's workers do), processes the event with the namespace,
     the resource and the conflict toggle of its own stream (C13: a peer seen in one namespace pauses/resumes through that
     namespace's toggle only), the operator's settings and identity; the processor of each RESOURCE stream is the operator's
-    processor told that stream's own resource (the handlers of kind A never see the objects of kind B).  Precondition from the call sites: cluster-wide mode (None in namespaces)
+    processor told that stream's own resource (the handlers of kind A never see the objects of kind B); within one call every
+    stream that is no longer to be served has ended before a new stream is started.  Precondition from the call sites: cluster-wide mode (None in namespaces)
     is fixed for the operator's life.  Unconstrained corners (DESIGN C19): cluster-scoped resources while
     namespaces == {} (the code keeps an existing watcher but would not start one); a resource that is both watched
     and the peering resource (excluded from the universe).
@@ -780,9 +781,19 @@ def O2(b):
     procs = {}          # (kind, resource, namespace) -> the processor handed to that stream's watcher
     ppe_calls = []
 
+    step = {'serve': None, 'overlaps': 0}    # what the call under test is to serve; streams started while a redundant one still ran
+
+    def note_start():
+        if step['serve'] is not None:
+            wres, wns = step['serve']
+            still = [k for kind in ('watch', 'peering', 'ping') for k, n in active[kind].items()
+                     if n > 0 and (k[0] not in wres or (k[1] is not None and k[1] not in wns))]
+            step['overlaps'] += len(still)
+
     def fake_watcher(*, namespace, resource, settings, processor, operator_paused=None, **kw):
         kind = 'watch' if operator_paused is not None else 'peering'
         procs[(kind, resource, namespace)] = processor
+        note_start()
         return idle(kind, (resource, namespace))
 
     async def fake_process_peering_event(**kw):
@@ -836,6 +847,9 @@ def O2(b):
                 insights.namespaces.clear(); insights.namespaces.update(namespaces)
                 before = dict(ensemble.watcher_tasks)
                 ensemble.deleted_alive = 0
+                step['overlaps'] = 0
+                step['serve'] = (set(watched) | ({presource} if presource is not None and (peering_mode != 'mandatory-appears' or i == len(steps) - 1) else set()),
+                                 set(namespaces)) if i == len(steps) - 1 else None
                 await orchestration.adjust_tasks(processor=processor, insights=insights, settings=settings,
                                                  identity='me', ensemble=ensemble)
                 await asyncio.sleep(0)
@@ -861,6 +875,10 @@ def O2(b):
                     and all(not t.done() for k, t in ensemble.watcher_tasks.items() if (k.resource, k.namespace) in want), w)
             removed = [t for k, t in before.items() if k not in ensemble.watcher_tasks]
             b.check('stopped_before_deletion', ensemble.deleted_alive == 0 and all(t.done() for t in removed), w)
+            # "stop the tasks first, start later -- not vice versa": a stream over a resource/namespace that is no longer served
+            # has ended before any new stream starts -- the same objects can be visible through both (a CRD switching its served
+            # version keeps the uids), and two streams over one object mean two workers on it at once (C01: serial per object)
+            b.check('redundant_streams_stopped_before_new_ones_start', step['overlaps'] == 0, w)
             pwant = expected([presource], namespaces) if presource is not None else set()
             pkeys = [{(k.resource, k.namespace) for k in d} for d in
                      (ensemble.peering_tasks, ensemble.pinging_tasks, ensemble.conflicts_found)]
